@@ -3,8 +3,8 @@
   `Mesh.__init__` / `MeshFields.__init__` neither overwrite nor mis-pair anything (helper lemmas for C07).
 -/
 import FcProofs.Lemmas.Structured
-namespace Fc
-open Spec
+namespace Fc.C07
+open Fc.C07.Spec
 
 /-! ### duplicates and the dict -/
 
@@ -244,4 +244,4 @@ theorem fromMeshio_content (m : MioMesh) (hwf : m.wf = true) (hnr : m.repeatedTy
     intro p _
     simp [MeshFields.pointItem, List.map_map, Function.comp_def]
 
-end Fc
+end Fc.C07
